@@ -18,6 +18,8 @@ CONFIG = {
     "C11": dict(gen=["Models"], drivers=["ModelsF", "SpreadPoint"], extra_prop_files=["PgVerif/Tie/Models.lean"]),
     "C02": dict(gen=["Units"], drivers=["IsoState"]),
     "C03": dict(gen=["Units"], drivers=["Access"]),
+    "C05": dict(gen=[], drivers=["Json"]),
+    "C06": dict(gen=[], drivers=["Json"]),
     "C08": dict(gen=[], drivers=["Store"]),
     "C09": dict(gen=[], drivers=["Store"]),
     "C10": dict(gen=["Models"], drivers=["ModelsF"], extra_prop_files=["PgVerif/Tie/Models.lean"]),
